@@ -414,40 +414,68 @@ def r4(ctx: Ctx, prog: sf.SqlProgram) -> None:
         what = f'{rel}::{q}'
         F = cf.scheduler_facts(m, fn, what, guard_clauses=True)
         lv = F.loop_var
-        flag_src = f"{lv}['{F.flag_col}']" if F.flag_col is not None and F.walk_ok else None
+        # the group-cancelled flag of the loop's record, however it is read (`rec['c']`, `rec.get('c')`); guards are looked at with single-definition
+        # locals expanded (`cancelled = rec['c']; if not cancelled:`)
+        flag_src = (f"{lv}['{F.flag_col}']", f"{lv}.get('{F.flag_col}')") if F.flag_col is not None and F.walk_ok else None
         covered_must = set()
         covered_may = set()
+        declines: List[str] = []
+
+        def expand(e: ast.expr) -> ast.expr:
+            return pf.expand_locals(fn, e)
         for inst in F.jobs:
             jc = cf.job_classes(inst, schema)
             ctx.need(not jc['unbound'], f'{what}: a parameter compared with always_run / cancelled / state is not bound to a constant at its call site ({jc["unbound"][:2]})')
-            runs_may = {gc for gc in (0, 1) if all(cf.guard3(t, pol, fn, flag_src, bool(gc)) is not False for t, pol in inst.guards)}
-            runs_must = {gc for gc in (0, 1) if all(cf.guard3(t, pol, fn, flag_src, bool(gc)) is True for t, pol in inst.guards)}
+            gs = [(expand(t), pol) for t, pol in inst.guards]
+            runs_may = {gc for gc in (0, 1) if all(cf.guard3(t, pol, fn, flag_src, bool(gc)) is not False for t, pol in gs)}
+            runs_must = {gc for gc in (0, 1) if all(cf.guard3(t, pol, fn, flag_src, bool(gc)) is True for t, pol in gs)}
             may_, must_ = jc['may'], jc['must']
             ars = sorted({a for a, _, _ in may_})
-            cs = sorted({c for _, c, _ in may_})
+            cs_ = sorted({c for _, c, _ in may_})
             via = ''.join(f' via {h}' for h in inst.chain)
-            cons = f'{what}::jobs query{via} always_run={"|".join(map(str, ars)) or "-"} cancelled={"|".join(map(str, cs)) or "-"}'
+            cons = f'{what}::jobs query{via} always_run={"|".join(map(str, ars)) or "-"} cancelled={"|".join(map(str, cs_)) or "-"}'
             guards = [("" if pol else "not ") + f'({pf.nsrc(t)})' for t, pol in inst.guards]
-            keyed = jc['key']['batch_id'] == f"{lv}['batch_id']" and jc['key']['job_group_id'] == f"{lv}['job_group_id']"
+            # keyed by the group the enclosing loop is at: the bound expressions with locals expanded must be the loop record's own ids
+            kx = {c: (pf.nsrc(expand(jc['key_expr'][c])) if jc['key_expr'].get(c) is not None else None) for c in ('batch_id', 'job_group_id')}
+            keyed = all(kx[c] in (f"{lv}['{c}']", f"{lv}.get('{c}')") for c in kx)
+            key_wrong = any(kx[c] is None or (kx[c] not in (f"{lv}['{c}']", f"{lv}.get('{c}')") and (kx[c].startswith(f'{lv}[') or kx[c].startswith(f'{lv}.get(') or kx[c].lstrip('-').isdigit())) for c in kx)
             problems = []
+            undecided = []
             if runs_may and any((0, 1, s_) in may_ for s_ in STATES):
                 ctx.need(not jc['cancelled_projected'], f'{what}: a job query that can select always_run = 0 AND cancelled = 1 jobs also fetches jobs.cancelled: the jobs may be filtered in Python, which this rule does not analyse')
-                problems.append('it can select a job with always_run = 0 and cancelled = 1: a Ready child of a parent that did not succeed (mark_job_complete / commit_batch_update set jobs.cancelled = 1 on it) is handed to '
-                                'schedule_job, which POSTs it to a worker before the stored procedure refuses it - the job runs although a parent failed')
+                if runs_must:
+                    problems.append('it can select a job with always_run = 0 and cancelled = 1: a Ready child of a parent that did not succeed (mark_job_complete / commit_batch_update set jobs.cancelled = 1 on it) is handed to '
+                                    'schedule_job, which POSTs it to a worker before the stored procedure refuses it - the job runs although a parent failed')
+                else:
+                    undecided.append('whether the query that can select always_run = 0 AND cancelled = 1 jobs runs at all depends on guards the analysis cannot evaluate')
             notready = sorted({s_ for _, _, s_ in may_ if s_ != 'Ready'})
             if runs_may and notready:
-                problems.append(f'it can select jobs in state {notready}: only Ready jobs (all parents terminal) may be started')
+                if runs_must:
+                    problems.append(f'it can select jobs in state {notready}: only Ready jobs (all parents terminal) may be started')
+                else:
+                    undecided.append('whether the query that can select jobs that are not Ready runs at all depends on guards the analysis cannot evaluate')
             if 1 in runs_may and any(a == 0 for a, _, _ in may_):
-                problems.append('jobs that are not always-run are offered although the group\'s ancestor walk found a cancellation'
-                                + ('' if flag_src else ' (the cancelled flag of the job-group query is not the canonical ancestor walk, so no guard on it is recognised)'))
+                if 1 in runs_must:
+                    problems.append('jobs that are not always-run are offered although the group\'s ancestor walk found a cancellation'
+                                    + ('' if flag_src else ' (the cancelled flag of the job-group query is not the canonical ancestor walk, so no guard on it is recognised)'))
+                else:
+                    undecided.append(f'whether ordinary jobs are offered for a group whose ancestor walk found a cancellation depends on guards the analysis cannot evaluate ({guards})')
             if not keyed:
-                problems.append(f'it is not keyed by the group of the enclosing loop (batch_id <- {jc["key"]["batch_id"]}, job_group_id <- {jc["key"]["job_group_id"]}; expected {lv}[\'batch_id\'], {lv}[\'job_group_id\'])')
+                if key_wrong:
+                    problems.append(f'it is not keyed by the group of the enclosing loop (batch_id <- {kx["batch_id"]}, job_group_id <- {kx["job_group_id"]}; expected {lv}[\'batch_id\'], {lv}[\'job_group_id\'])')
+                else:
+                    undecided.append(f'the query is keyed by batch_id <- {kx["batch_id"]}, job_group_id <- {kx["job_group_id"]}: not recognisably the ids of the loop\'s group `{lv}`')
             for gc in runs_must:
                 covered_must |= {(a, c, gc) for a, c, s_ in must_ if s_ == 'Ready'} if keyed else set()
             for gc in runs_may:
                 covered_may |= {(a, c, gc) for a, c, s_ in may_ if s_ == 'Ready'} if keyed else set()
-            ctx.check(not problems, 'R4', cons, f'this instantiation of the job query (conjuncts on always_run / cancelled / state: {jc["conj"]}; guards on the call path: {guards or "none"}): ' + '; '.join(problems),
-                      m.path, inst.lineno)
+            if problems or not undecided:
+                ctx.check(not problems, 'R4', cons, f'this instantiation of the job query (conjuncts on always_run / cancelled / state: {jc["conj"]}; guards on the call path: {guards or "none"}): ' + '; '.join(problems),
+                          m.path, inst.lineno)
+            if undecided:
+                declines.append(f'{what}: ' + undecided[0])
+        if declines:
+            raise AnalysisError(declines[0])
         want = {(1, c, gc) for c in (0, 1) for gc in (0, 1)}
         cons = f'{what}::always-run jobs are offered regardless'
         if want <= covered_must:
